@@ -354,8 +354,9 @@ def parseJson (nc : NumCodec) (s : String) : Option Json :=
   | some (v, r) => if (skipWs r).isEmpty then some v else none
   | none => none
 
+/-- `strings.Trim(s, " \t\r\n")` -/
 def trimGoSpace (s : String) : String :=
-  String.ofList ((s.toList.dropWhile isGoSpace).reverse.dropWhile isGoSpace).reverse
+  String.ofList ((s.toList.dropWhile isJsonWs).reverse.dropWhile isJsonWs).reverse
 
 /-- `ReadJsonString`: blank text is the void document -/
 def readJsonM (nc : NumCodec) (s : String) : Outcome Json :=
